@@ -61,10 +61,19 @@ def run(R, tier, seed, driver_ok):
             Mref = ref.get_mahalanobis_matrix()
             t = zoo.TUPLE_SIZE.get(name)
             kinds = ['array', 'list', 'callable', 'records', 'callable-list']
+            # the same point reachable under two indicators: a few rows of the pool are listed a second time at its end, and
+            # about half of their occurrences in the indicator input use the second listing (the formed data is unchanged)
+            al = rng.choice(len(pool), size=3, replace=False)
+            n_pool0 = len(pool)
+            pool = np.vstack([pool, pool[al]])
             for kind in kinds:
                 pre = zoo.make_preprocessor(kind, pool)
                 dt = INT_DTYPES[int(rng.randint(len(INT_DTYPES)))]
-                idx_args = (inv[ia[0]].astype(dt),) + tuple(ia[1:])
+                base_idx = np.array(inv[ia[0]], copy=True)
+                for j_, a_ in enumerate(al):
+                    hit = (base_idx == a_) & (rng.rand(*base_idx.shape) < 0.5)
+                    base_idx[hit] = n_pool0 + j_
+                idx_args = (base_idx.astype(dt),) + tuple(ia[1:])
                 case = {'est': name, 'preprocessor': kind, 'dtype': str(np.dtype(dt)), 'X': X, 'y': y}
                 captured = []
                 orig_ci = bm.check_input
